@@ -1682,8 +1682,18 @@ def index_select(t, dim, index):
     return Tensor(np.take(t.a, index._intarr(), axis=dim), t.dtype)
 
 
-def einsum(*a, **k):
-    raise Inconclusive("einsum is not modelled")
+def einsum(equation, *operands, **k):
+    """explicit-subscript einsum on object arrays (numpy's einsum runs Python arithmetic on them)."""
+    if not isinstance(equation, str) or "..." in equation:
+        raise Inconclusive("einsum: only explicit subscript strings are modelled")
+    if len(operands) == 1 and isinstance(operands[0], (list, tuple)):
+        operands = tuple(operands[0])
+    ts = [_t(o) for o in operands]
+    dt = _res_dtype(*ts)
+    r = np.einsum(equation, *[_num(t) for t in ts], optimize=False)
+    if not isinstance(r, np.ndarray):
+        r = _oa(r)
+    return Tensor(_fix_empty(r, dt), dt)
 
 
 # --------------------------------------------------------------------------
